@@ -17,7 +17,7 @@ RULES = {
     'R6': 'both transports fill every slot of qb_ipcs_funcs / qb_ipcc_funcs that is called without a NULL test; peek and reclaim are both set or both unset',
     'R7': 'qb_ipcc_fd_get returns the event socket for socket transport and the setup socket otherwise; the server writes notification bytes to c->setup only under needs_sock_for_poll',
 }
-FLOORS = {'R1': 12, 'R2': 6, 'R3': 12, 'R4': 4, 'R5': 4, 'R6': 6, 'R7': 4}
+FLOORS = {'R1': 12, 'R2': 6, 'R3': 12, 'R4': 5, 'R5': 4, 'R6': 6, 'R7': 4}
 
 EMSGSIZE, EAGAIN = -90, -11
 
@@ -454,6 +454,16 @@ def r4(ctx):
         return False
     ctx.check('R4', 'resend:sends-outstanding-count', len(sends) == 1 and at_most_outstanding(sends[0].args[2]), sends[0] if sends else r,
               'the resend writes the outstanding count (or a capped part of it; the rest follows on the next POLLOUT)', 'the resend writes %s bytes, not bounded by the outstanding count' % (estr(sends[0].args[2]) if sends else None))
+    # the owed bytes are written when the descriptor can take them, whatever else the dispatcher decides not to do: the POLLOUT
+    # branch of the connection dispatcher is not behind the flow-control test (flow control stops the taking of requests)
+    d = prog.fn('qb_ipcs_dispatch_connection_request')
+    rs = list(d.calls('resend_event_notifications'))
+    if not rs:
+        raise AnalysisBroken('qb_ipcs_dispatch_connection_request: no resend of owed notifications')
+    gated = [a for ev in rs for (a, _e) in d.guards(ev) if any(n.get('k') == 'mem' and n.get('f') == 'fc_enabled' for n in list(walk(a.l)) + list(walk(a.r)))]
+    ctx.check('R4', 'resend:not-behind-flow-control', not gated, rs[0], 'the dispatcher sends the owed notifications on POLLOUT whether or not flow control is on',
+              'the dispatcher sends the owed notifications only while flow control is off (%s): with the rate limit at OFF, events whose notification byte was deferred stay in the ring and the descriptor the client polls is not readable'
+              % (gated[0] if gated else ''))
 
 
 def r5(ctx):
